@@ -263,38 +263,7 @@ Theorem next_params_highload code w st :
     end.
 Proof. intros E. unfold next_params. rewrite E. reflexivity. Qed.
 
-(* the seqno read back from data of the wallet's own layout (any ids and key,
-   empty dictionaries) is the stored one *)
-Theorem seqno_of_own_data s (a b : N) (pk : bits) (flag : bool) (wid80 : bits) :
-  (s < 4294967296)%N -> length pk = 256%nat -> length wid80 = 80%nat ->
-  seqno_of_data V3R1 (ocell (u32 s ++ u32 a ++ pk) []) = Ok s /\
-  seqno_of_data V3R2 (ocell (u32 s ++ u32 a ++ pk) []) = Ok s /\
-  seqno_of_data V4R1 (ocell (u32 s ++ u32 a ++ pk ++ [false]) []) = Ok s /\
-  seqno_of_data V4R2 (ocell (u32 s ++ u32 a ++ pk ++ [false]) []) = Ok s /\
-  seqno_of_data V5Beta (ocell (bits_of 33 s ++ wid80 ++ pk ++ [false]) []) = Ok s /\
-  seqno_of_data V5R1 (ocell ([flag] ++ u32 s ++ u32 b ++ pk ++ [false]) []) = Ok s.
-Proof.
-  intros Hs Hpk Hw. unfold seqno_of_data, hashmap_e_ok. cbn [cdata crefs ocell].
-  repeat split.
-  1-2: rewrite (take_app_n 32) by apply u32_len; cbn [bind fst snd];
-       rewrite (take_app_n 32) by apply u32_len; cbn [bind fst snd];
-       rewrite (take_all 256) by exact Hpk; cbn [bind fst snd]; rewrite N_u32 by exact Hs; reflexivity.
-  1-2: rewrite (take_app_n 32) by apply u32_len; cbn [bind fst snd];
-       rewrite (take_app_n 32) by apply u32_len; cbn [bind fst snd];
-       rewrite (take_app_n 256) by exact Hpk; cbn [bind fst snd];
-       rewrite (take_all 1) by reflexivity; cbn [bind fst snd nth]; rewrite N_u32 by exact Hs; reflexivity.
-  - rewrite (take_app_n 33) by apply bits_of_length. cbn [bind fst snd].
-    rewrite (take_app_n 80) by exact Hw. cbn [bind fst snd].
-    rewrite (take_app_n 256) by exact Hpk. cbn [bind fst snd].
-    rewrite (take_all 1) by reflexivity. cbn [bind fst snd nth].
-    rewrite N_of_bits_bits_of_small by (change (2 ^ N.of_nat 33)%N with 8589934592%N; lia).
-    rewrite N.mod_small by exact Hs. reflexivity.
-  - rewrite (take_app_n 1) by reflexivity. cbn [bind fst snd].
-    rewrite (take_app_n 32) by apply u32_len. cbn [bind fst snd].
-    rewrite (take_app_n 32) by apply u32_len. cbn [bind fst snd].
-    rewrite (take_app_n 256) by exact Hpk. cbn [bind fst snd].
-    rewrite (take_all 1) by reflexivity. cbn [bind fst snd nth]. rewrite N_u32 by exact Hs. reflexivity.
-Qed.
+(* the decoders on all well-formed data of a version: Proofs/WalletDataP.v *)
 
 (** *** the confirmation loop over all histories *)
 Theorem confirm_iff wait sent h :
